@@ -176,7 +176,9 @@ def main():
     internal = [v for v in violations if '__havoc_target' in v or v.startswith('__CPROVER_contracts') or ':assigns:' in v or ':loop_assigns:' in v
                 or 'loop_step_unwinding' in v or ':unwind:' in v]
     primary = [v for v in violations if v not in internal]
-    if primary:
+    if primary or known_hit:
+        # the instrumentation's own follow-up assertions (e.g. a contract precondition that failed makes the replaced call's write-set
+        # bookkeeping fail too) are reported with the obligation that caused them -- a new violation or a listed known finding
         suppressed = internal
         violations = primary
     else:
